@@ -191,7 +191,7 @@ def gen_c15_long(rng: random.Random) -> Dict[str, Any]:
     items: List[Dict[str, Any]] = []
     for i in range(rng.randint(2, 4)):
         at = S.EPOCH + (start + rng.randint(1, minutes - 1) * M) * S.US
-        kind = rng.choice(["dom", "dow", "mon", "hour"])
+        kind = rng.choice(["dom", "dow", "mon", "hour", "hourly"])
         mi, ho = at.minute, at.hour
         if kind == "dom":
             expr = f"{mi} {ho} {at.day} * *"
@@ -199,9 +199,11 @@ def gen_c15_long(rng: random.Random) -> Dict[str, Any]:
             expr = f"{mi} {ho} * * {at.isoweekday() % 7}"
         elif kind == "mon":
             expr = f"{mi} {ho} {at.day} {at.month} *"
+        elif kind == "hourly":
+            expr = f"{mi} * * * *"  # the same minute of every hour
         else:
             expr = f"{mi} {ho} * * *"
-        if rng.random() < 0.3:
+        if rng.random() < 0.3 and kind != "hourly":
             expr = expr.replace(f"{mi} ", "*/30 ", 1)
         items.append({"id": f"c{i}", "cron": expr, "offset": rng.choice([None, None, 3600, "Asia/Kolkata"]), "add_at": 0.0})
     return {"start_us": start, "minutes": minutes, "sources": [{"items": items, "lat": 0}], "kick_lat": {}, "kick_fail": [], "long": True}
@@ -605,6 +607,9 @@ def gen_c16a(rng: random.Random) -> Dict[str, Any]:
     labels = {f"l{i}": enc_label(gen_label_value(rng)) for i in range(rng.randint(0, 3))}
     if rng.random() < 0.2:
         labels["odd"] = rng.choice([[1, 2], {"a": 1}, None])
+    if rng.random() < 0.12:
+        # a schedule created from inside a scheduled execution inherits that message's labels, schedule_id included
+        labels["schedule_id"] = rng.choice(["sch-parent", "", "sch-0"])
     return {"mode": "on_ready", "sid": f"sch-{rng.randint(0, 999)}", "task_name": rng.choice(["mod:task", "t", "ü.task"]),
             "args": [gen_json_tree(rng) for _ in range(rng.randint(0, 3))],
             "kwargs": {f"k{i}": gen_json_tree(rng) for i in range(rng.randint(0, 3))},
@@ -682,6 +687,7 @@ def run_c16a(spec: Dict[str, Any]) -> "tuple[List[Violation], Any]":
         if got.get("schedule_id") != sid:
             v.append(Violation("payload-schedule-id", f"schedule_id label {got.get('schedule_id')!r} != {sid!r}"))
         got.pop("schedule_id", None)
+        labels = {k: x for k, x in labels.items() if k != "schedule_id"}  # the scheduler's own id label replaces an inherited one
         prim = {k: x for k, x in labels.items() if type(x) in (int, float, bool, str, bytes)}
         other = {k: x for k, x in labels.items() if k not in prim}
         if not labels_eq({k: x for k, x in got.items() if k in prim}, prim) or set(got) != set(labels):
@@ -777,7 +783,8 @@ def gen_c16b(rng: random.Random) -> Dict[str, Any]:
             # relist: list again before every firing; otherwise fire several schedules of one listing (what the
             # scheduler loop does when several one-shots are due in the same poll)
             "relist": rng.random() < 0.5,
-            "shared_default": rng.choice([None, "own", "own", "foreign"])}
+            "shared_default": rng.choice([None, "own", "own", "foreign"]),
+            "source_on": "shared" if rng.random() < 0.15 else "own"}
 
 
 def _entry_key(task: str, e: Any) -> Any:
@@ -824,16 +831,21 @@ def run_c16b(spec: Dict[str, Any]) -> "tuple[List[Violation], Any]":
         b.register_task(fn, task_name=t["name"], schedule=sched, **t["extra_labels"])
         if t["where"] == "shared":
             registered_global.append(t["name"])
+        on_shared = spec.get("source_on") == "shared"
         if t["where"] == "own" and t.get("shadowed"):
             # a shared (global-registry) task with the same name: the broker's own task has priority
             fn2 = lambda: None  # noqa: E731
             fn2.__name__ = t["name"] + "_shared"
             fn2.__module__ = "mon.sched_loop"
-            shared.register_task(fn2, task_name=t["name"], schedule=[{"cron": "*/9 * * * *", "args": ["shadow"]}])
+            shadow_sched = [{"cron": "*/9 * * * *", "args": ["shadow"]}]
+            shared.register_task(fn2, task_name=t["name"], schedule=shadow_sched)
             registered_global.append(t["name"])
-        if t["where"] == "own":
+            if on_shared:
+                declared[t["name"]] = shadow_sched
+        if t["where"] == ("shared" if on_shared else "own"):
             declared[t["name"]] = sched
-    src = LabelScheduleSource(broker)
+    # the label source of the shared broker lists the schedules declared on shared tasks
+    src = LabelScheduleSource(shared if spec.get("source_on") == "shared" else broker)
     sch = TaskiqScheduler(broker, [src])
     rng = random.Random(spec["fire_seed"])
 
